@@ -46,11 +46,11 @@ def setup():
   C = c
 
 
-OPS = ['def_m1', 'def_m2', 'def_mg', 'def_special4', 'def_ab3', 'use_p', 'use_q_list', 'use_r_ab', 'use_p_uneval',
+OPS = ['def_m1', 'def_m2', 'def_m_none', 'def_m_empty', 'def_mg', 'def_special4', 'def_ab3', 'use_p', 'use_q_list', 'use_r_ab', 'use_p_uneval',
        'file2_redefine', 'include_def_use', 'finalize', 'def_and_use_one_text', 'use_then_def_one_text',
        'def_gin_macro5']
 TEXT = {
-    'def_m1': 'm = 1', 'def_m2': 'm = 2', 'def_mg': 'm = @c05.g()', 'def_special4': 'm/macro.value = 4',
+    'def_m1': 'm = 1', 'def_m2': 'm = 2', 'def_m_none': 'm = None', 'def_m_empty': "m = ''", 'def_mg': 'm = @c05.g()', 'def_special4': 'm/macro.value = 4',
     'def_gin_macro5': 'm/gin.macro.value = 5',
     'def_ab3': 'a/b = 3', 'use_p': 'c05.c.p = %m', 'use_q_list': "c05.c.q = [%m, 'x', %m]", 'use_r_ab': 'c05.c.r = %a/b',
     'use_p_uneval': 'c05.c.p = @m/macro',
@@ -82,8 +82,9 @@ class World:
     return (harness.internal_state(),)
 
   def _model_apply(self, op):
-    if op in ('def_m1', 'def_m2', 'def_special4', 'def_gin_macro5'):
-      self.macros['m'] = {'def_m1': 1, 'def_m2': 2, 'def_special4': 4, 'def_gin_macro5': 5}[op]
+    if op in ('def_m1', 'def_m2', 'def_special4', 'def_gin_macro5', 'def_m_none', 'def_m_empty'):
+      self.macros['m'] = {'def_m1': 1, 'def_m2': 2, 'def_special4': 4, 'def_gin_macro5': 5, 'def_m_none': None,
+                          'def_m_empty': ''}[op]
     elif op == 'def_mg':
       self.macros['m'] = G
     elif op == 'def_ab3':
